@@ -658,6 +658,21 @@ def r4(run):
     names = [f["name"] for f in adt["variants"][0]["fields"]]
     run.ob("Frame|field-tables", de_fields is not None and ser_fields == de_fields == names, "<struct Frame>",
            "serialised field names %s = deserialised field names %s = struct fields %s (no skip / rename on one side)" % (ser_fields, de_fields, names), reason="frame-codec-asymmetry")
+    # no field of Frame has a hand-written codec on one side only (`#[serde(deserialize_with = ..)]`, `serialize_with`): the stored
+    # bytes are written by the derived Serialize and must be readable by the derived Deserialize for every value append accepts
+    custom = {"serde::de::Deserialize": [], "serde::ser::Serialize": []}
+    for b in facts.all_bodies():
+        for tr, prefix in (("serde::de::Deserialize", "xs::store::_::<impl serde::de::Deserialize<'de> for xs::store::Frame>"),
+                           ("serde::ser::Serialize", "xs::store::_::<impl serde::ser::Serialize for xs::store::Frame>")):
+            if prefix in b.def_:     # also the helper types the derive nests in it (`__Visitor`, `__DeserializeWith`, `__SerializeWith`)
+                run.touch(b)
+                for c in b.calls():
+                    if c.bb in b.live_blocks() and c.local and not c.fn.startswith("xs::store::_::") and not c.fn.startswith("<xs::store::_::"):
+                        custom[tr].append(c.fn)
+    de_c, se_c = sorted(set(custom["serde::de::Deserialize"])), sorted(set(custom["serde::ser::Serialize"]))
+    run.ob("Frame|no-one-sided-field-codec", not de_c and not se_c, "<struct Frame>",
+           "no Frame field is decoded / encoded by a custom function (decoder side: %s, encoder side: %s): what insert_frame writes, deserialize_frame reads" % (de_c, se_c),
+           reason="frame-codec-asymmetry")
     tt = [im for im in facts.lib.impls if im["self_s"] == TTL and im["trait"] in ("serde::ser::Serialize", "serde::de::Deserialize")]
     run.ob("TTL|serde-impls", len(tt) == 2 and not any(im["derived"] for im in tt), "<enum TTL>", "TTL has hand-written Serialize and Deserialize (covered by R-C12-1)", reason="ttl-codec")
 
